@@ -39,7 +39,7 @@ impl Prop for C09 {
         ]
     }
     fn cases(tier: Tier) -> u64 {
-        tier.pick(12_000, 250_000)
+        tier.pick(12_000, 50_000)
     }
     fn strategy(tier: Tier) -> BoxedStrategy<Case> {
         prop_oneof![
